@@ -1,6 +1,7 @@
 package main
 
 import (
+	"fmt"
 	"gonum.org/v1/gonum/mat"
 	"gonum.org/v1/gonum/verifx/vrt"
 )
@@ -22,15 +23,15 @@ var (
 	mDenseApply = &method{name: "Dense.Apply", pos: aOnly, call: func(r any, o []mat.Matrix, cs *caseSpec) {
 		dn(r).Apply(func(i, j int, v float64) float64 { return v*cs.alpha + float64(i) - 0.5*float64(j) }, o[0])
 	}}
-	mDenseCopy      = &method{name: "Dense.Copy", pos: aOnly, copyLike: true, call: func(r any, o []mat.Matrix, _ *caseSpec) { dn(r).Copy(o[0]) }}
+	mDenseCopy      = &method{name: "Dense.Copy", pos: aOnly, copyLike: true, call: func(r any, o []mat.Matrix, cs *caseSpec) { cs.status = fmt.Sprint(dn(r).Copy(o[0])) }}
 	mDenseCloneFrom = &method{name: "Dense.CloneFrom", pos: aOnly, realloc: true, call: func(r any, o []mat.Matrix, _ *caseSpec) { dn(r).CloneFrom(o[0]) }}
-	mDenseInverse   = &method{name: "Dense.Inverse", pos: aOnly, call: func(r any, o []mat.Matrix, _ *caseSpec) { _ = dn(r).Inverse(o[0]) }}
+	mDenseInverse   = &method{name: "Dense.Inverse", pos: aOnly, errOp: 1, call: func(r any, o []mat.Matrix, cs *caseSpec) { cs.status = errClass(dn(r).Inverse(o[0])) }}
 	mDensePow       = &method{name: "Dense.Pow", pos: aOnly, call: func(r any, o []mat.Matrix, cs *caseSpec) { dn(r).Pow(o[0], cs.n) }}
 	mDenseExp       = &method{name: "Dense.Exp", pos: aOnly, call: func(r any, o []mat.Matrix, _ *caseSpec) { dn(r).Exp(o[0]) }}
 
 	mDenseMul     = &method{name: "Dense.Mul", pos: ab, call: func(r any, o []mat.Matrix, _ *caseSpec) { dn(r).Mul(o[0], o[1]) }}
 	mDenseProduct = &method{name: "Dense.Product", pos: []string{"f0", "f1", "f2"}, call: func(r any, o []mat.Matrix, _ *caseSpec) { dn(r).Product(o...) }}
-	mDenseSolve   = &method{name: "Dense.Solve", pos: ab, call: func(r any, o []mat.Matrix, _ *caseSpec) { _ = dn(r).Solve(o[0], o[1]) }}
+	mDenseSolve   = &method{name: "Dense.Solve", pos: ab, errOp: 1, call: func(r any, o []mat.Matrix, cs *caseSpec) { cs.status = errClass(dn(r).Solve(o[0], o[1])) }}
 	mDenseKron    = &method{name: "Dense.Kronecker", pos: ab, call: func(r any, o []mat.Matrix, _ *caseSpec) { dn(r).Kronecker(o[0], o[1]) }}
 	mDenseStack   = &method{name: "Dense.Stack", pos: ab, call: func(r any, o []mat.Matrix, _ *caseSpec) { dn(r).Stack(o[0], o[1]) }}
 	mDenseAugment = &method{name: "Dense.Augment", pos: ab, call: func(r any, o []mat.Matrix, _ *caseSpec) { dn(r).Augment(o[0], o[1]) }}
